@@ -339,6 +339,16 @@ class SimpleRun:
                 task = asyncio.ensure_future(self.sc.call(ev, data,
                                                           timeout=timeout))
                 await settle(loop, horizon=0)
+                if script == 'ack_second':
+                    # the first emission is never answered; whatever the
+                    # client sends after its time-out is acknowledged
+                    await asyncio.sleep(timeout + 0.001)
+                    await settle(loop, horizon=0)
+                    pk = [p for p in h.sent[self.mark:]
+                          if p['type'] in (R.EVENT, R.BINARY_EVENT)]
+                    if len(pk) >= 2:
+                        h.deliver(R.ACK, ns, pk[-1]['id'], args)
+                        await settle(loop, horizon=0)
                 for n2, i2, a2 in reactions():
                     h.deliver(R.ACK, n2, i2, a2)
                     await settle(loop, horizon=0)
@@ -357,6 +367,15 @@ class SimpleRun:
             return h.run(go(), horizon=0)
 
         def idle(evt, tmo):
+            if evt.label == 'call' and script == 'ack_second':
+                state['waits'] = state.get('waits', 0) + 1
+                if state['waits'] == 2:
+                    pk = [p for p in h.sent[self.mark:]
+                          if p['type'] in (R.EVENT, R.BINARY_EVENT)]
+                    if len(pk) >= 2:
+                        h.deliver(R.ACK, ns, pk[-1]['id'], args)
+                        return True
+                return False
             if evt.label != 'call' or state.get('reacted'):
                 return False
             state['reacted'] = True
@@ -424,7 +443,9 @@ def gen_simple_script(rng):
                         # ever on both implementations (TimeoutError is a
                         # SocketIOError, which its retry loop swallows): not
                         # scripted
-                        'ack',
+                        # ('ack_second': the first emission is not
+                        # answered in time, the next one is)
+                        rng.choice(['ack'] * 6 + ['ack_second']),
                         gen.gen_args(rng, True, 2, maxn=3)])
         elif r < 0.88:
             if cfg['reconnection']:
